@@ -512,6 +512,40 @@ def check_batch(ctx, batch, model, spec):
                          f"step {mi} ({op[0]}): model != implementation")
 
 
+def check_large_stores(ctx, spec):
+    """Expiry on stores far larger than the histories above hold (the quantifier bounds the HISTORIES, not the store): N sessions
+    created, a pattern of them kept alive, one cleanup pass; the sessions that go are exactly those the specification's `expired`
+    names, wherever they sit in the store."""
+    CLOCK.scale = 1
+    for N, keep in ((1000, "first-half"), (1001, "all-but-last"), (1300, "first-1000"), (1300, "none"), (2500, "every-3rd"),
+                    (5000, "last-10") if (ctx.thorough or ctx.escalated) else (1500, "last-10")):
+        w = World()
+        CLOCK.now = 100
+        ids = [w.mgr.create_session({"name": f"c{i}"}, "2025-06-18") for i in range(N)]
+        kept = {"first-half": set(range(N // 2)), "all-but-last": set(range(N - 1)), "first-1000": set(range(1000)), "none": set(),
+                "every-3rd": set(range(0, N, 3)), "last-10": set(range(N - 10, N))}[keep]
+        CLOCK.now = 100 + 5 * DT
+        for i in sorted(kept):
+            w.mgr.update_activity(ids[i])
+        now, age = 100 + 8 * DT, 4 * DT
+        CLOCK.now = now
+        last = {ids[i]: (100 + 5 * DT if i in kept else 100) for i in range(N)}
+        exp = spec.run([call(3, str(now), str(age), str(last[k])) for k in ids])
+        want_gone = {k for k, e in zip(ids, exp) if bool(e)}
+        removed = w.mgr.cleanup_expired(age)
+        left = set(w.mgr.sessions)
+        case = {"large_store": N, "kept_alive": keep, "now": now, "max_age": age}
+        ctx.case(case, nontrivial=True)
+        ctx.count("large-store:" + ("<=1000" if N <= 1000 else ">1000"))
+        ctx.spec_total += 1
+        if removed != len(want_gone) or left != set(ids) - want_gone:
+            wrongly_left = sorted(ids.index(k) for k in (left & want_gone))[:5]
+            wrongly_gone = sorted(ids.index(k) for k in ((set(ids) - left) - want_gone))[:5]
+            ctx.spec_violation("not-a-map:cleanup-on-a-large-store", case,
+                               f"cleanup returned {removed}, {len(want_gone)} sessions were idle for longer than the limit; "
+                               f"positions wrongly left: {wrongly_left}, wrongly removed: {wrongly_gone}")
+
+
 def explore(ctx, model, spec):
     id_supply_probe(ctx)
     seam = install_seams()
@@ -523,7 +557,7 @@ def explore(ctx, model, spec):
         ctx.escalated = True
         return
     prepare_messages()
-    depth = ctx.budget(4, 5)
+    depth = 5 if ctx.thorough else 4          # an escalated quick run (a broken obligation) keeps the quick depth: minutes, not a quarter of an hour
     batch = []
     boundary = 0
 
@@ -550,7 +584,7 @@ def explore(ctx, model, spec):
         feed(hist, n, "exhaustive")
     flush()
     # two levels deeper over the 7 core operations (only the new, longer sequences)
-    stride = 1 if (ctx.thorough or ctx.escalated) else 3      # quick: every third of the longest core sequences
+    stride = 1 if ctx.thorough else 3      # quick: every third of the longest core sequences
     for j, (hist, n) in enumerate(exhaustive(ctx, depth + 2, core_alphabet())):
         if n > depth and (n < depth + 2 or j % stride == 0):
             feed(hist, n, "exhaustive-core")
@@ -562,6 +596,7 @@ def explore(ctx, model, spec):
     b = spec.run([call(3, "130", "20", "110"), call(3, "131", "20", "110"), call(3, "130", "20", "111")])
     if [bool(x) for x in b] != [False, True, False]:
         raise lib.HarnessError("spec boundary self-check failed")
+    check_large_stores(ctx, spec)
     for k, v in STATS.items():
         ctx.count(k, v)
     if not STATS["cleanup:idle==limit(boundary)"]:
@@ -611,6 +646,11 @@ def replay(ctx, data):
     install_seams()
     prepare_messages()
     case = data.get("case") or {}
+    if "large_store" in case:
+        check_large_stores(ctx, spec)
+        for f in ctx.spec_fail:
+            print("REPRODUCED", f["class"], f["case"], f["detail"])
+        return 1 if ctx.spec_fail else 0
     if "history" not in case:
         print("nothing to replay in", data.get("kind"))
         return 0
